@@ -25,7 +25,11 @@ registry! {
     "C17" => c17,
     "C24" => c24,
     "C36" => c36,
+    "C37" => c37,
+    "C38" => c38,
 }
+
+pub mod utilsan;
 
 /// Worker-side execution of check-specific requests.
 pub fn worker_custom(check: &str, _payload: Value) -> Value {
